@@ -127,6 +127,16 @@ func c19Options(n int, ctxSrc []byte) (*ed25519.Options, bool) {
 	// (message-length condition for ph is handled by the caller)
 	o := &ed25519.Options{}
 	docPanic := false
+	if n >= 12 {
+		// every one of the 32 VerifyOptions flag sets (presets cover only four)
+		f := (n - 12) % 32
+		o.Verify = &ed25519.VerifyOptions{AllowSmallOrderA: f&1 != 0, AllowSmallOrderR: f&2 != 0, AllowNonCanonicalA: f&4 != 0,
+			AllowNonCanonicalR: f&8 != 0, CofactorlessVerify: f&16 != 0}
+		if (n-12)/32%2 == 1 {
+			o.Context = "c19"
+		}
+		return o, o.Verify.AllowNonCanonicalR && o.Verify.CofactorlessVerify
+	}
 	switch n % 12 {
 	case 0:
 	case 1:
@@ -504,7 +514,7 @@ func init() {
 	}}
 
 	// ------------------------------------------------------------------ Ed25519
-	R["ed25519.VerifyWithOptions"] = c19Row{Nominal: [3]int{32, -2, 64}, NMax: 11, Valid: c19ValidEdSig, Run: func(c c19Case, a [3][]byte, r *h.R) {
+	R["ed25519.VerifyWithOptions"] = c19Row{Nominal: [3]int{32, -2, 64}, NMax: 75, Valid: c19ValidEdSig, Run: func(c c19Case, a [3][]byte, r *h.R) {
 		name := "ed25519.VerifyWithOptions"
 		opts, docPanic := c19Options(c.N, a[1])
 		if opts.Hash == crypto.SHA512 && len(a[1]) != 64 {
@@ -516,7 +526,7 @@ func init() {
 		var ok bool
 		p, v := h.Catch(func() { ok = ed25519.VerifyWithOptions(a[0], a[1], a[2], opts) })
 		if p != docPanic {
-			r.Fail(name+":panic-not-as-documented", "pk-len=%d msg-len=%d sig-len=%d opt=%d panicked=%v (%v) documented=%v", len(a[0]), len(a[1]), len(a[2]), c.N%12, p, v, docPanic)
+			r.Fail(name+":panic-not-as-documented", "pk-len=%d msg-len=%d sig-len=%d opt=%d panicked=%v (%v) documented=%v", len(a[0]), len(a[1]), len(a[2]), c.N, p, v, docPanic)
 			return
 		}
 		if !p && ok && len(a[2]) != 64 {
@@ -525,7 +535,7 @@ func init() {
 		if !p && ok && !ref.Decode(a[0]).OK {
 			r.Fail(name+":accepted-undecodable-key", "pk=%x", a[0])
 		}
-		if c.N%12 == 0 && len(a[0]) == 32 {
+		if c.N == 0 && len(a[0]) == 32 {
 			// plain entry point agrees
 			var ok2 bool
 			if p2, _ := h.Catch(func() { ok2 = ed25519.Verify(a[0], a[1], a[2]) }); p2 || ok2 != ok {
@@ -537,7 +547,7 @@ func init() {
 			r.Fail(name+":nil-options-did-not-panic", "")
 		}
 	}}
-	R["ed25519.NewExpandedPublicKey+VerifyExpanded"] = c19Row{Nominal: [3]int{32, -2, 64}, NMax: 11, Valid: c19ValidEdSig, Run: func(c c19Case, a [3][]byte, r *h.R) {
+	R["ed25519.NewExpandedPublicKey+VerifyExpanded"] = c19Row{Nominal: [3]int{32, -2, 64}, NMax: 75, Valid: c19ValidEdSig, Run: func(c c19Case, a [3][]byte, r *h.R) {
 		name := "ed25519.NewExpandedPublicKey"
 		var epk *ed25519.ExpandedPublicKey
 		var err error
@@ -562,19 +572,19 @@ func init() {
 		var ok, okPlain bool
 		p, v := h.Catch(func() { ok = ed25519.VerifyExpandedWithOptions(epk, a[1], a[2], opts) })
 		if p != docPanic {
-			r.Fail("ed25519.VerifyExpandedWithOptions:panic-not-as-documented", "opt=%d panicked=%v (%v)", c.N%12, p, v)
+			r.Fail("ed25519.VerifyExpandedWithOptions:panic-not-as-documented", "opt=%d panicked=%v (%v)", c.N, p, v)
 			return
 		}
 		if !p {
 			h.Catch(func() { okPlain = ed25519.VerifyWithOptions(a[0], a[1], a[2], opts) })
 			if ok != okPlain {
-				r.Fail("ed25519.VerifyExpandedWithOptions:disagrees-with-plain", "pk=%x sig=%x opt=%d expanded=%v plain=%v", a[0], a[2], c.N%12, ok, okPlain)
+				r.Fail("ed25519.VerifyExpandedWithOptions:disagrees-with-plain", "pk=%x sig=%x opt=%d expanded=%v plain=%v", a[0], a[2], c.N, ok, okPlain)
 			}
 		}
 	}}
-	R["ed25519.BatchVerifier"] = c19Row{Nominal: [3]int{32, -2, 64}, NMax: 47, Valid: c19ValidEdSig, Run: func(c c19Case, a [3][]byte, r *h.R) {
+	R["ed25519.BatchVerifier"] = c19Row{Nominal: [3]int{32, -2, 64}, NMax: 303, Valid: c19ValidEdSig, Run: func(c c19Case, a [3][]byte, r *h.R) {
 		name := "ed25519.BatchVerifier"
-		opts, cfgInvalid := c19Options(c.N, a[1])
+		opts, cfgInvalid := c19Options(c.N%76, a[1])
 		if opts.Hash == crypto.SHA512 && len(a[1]) != 64 {
 			cfgInvalid = true
 		}
@@ -585,7 +595,7 @@ func init() {
 		}
 		c19NoPanic(r, name, func() {
 			v := ed25519.NewBatchVerifier()
-			mode := (c.N / 12) % 4
+			mode := (c.N / 76) % 4
 			v.Add(good[0], good[1], good[2])
 			switch mode {
 			case 0:
@@ -610,15 +620,15 @@ func init() {
 				want = false
 			}
 			if !valid[0] || !valid[2] {
-				r.Fail(name+".Verify:valid-entry-reported-invalid", "mode=%d opt=%d valid=%v", mode, c.N%12, valid)
+				r.Fail(name+".Verify:valid-entry-reported-invalid", "mode=%d opt=%d valid=%v", mode, c.N%76, valid)
 			}
 			if valid[1] != want || all != want {
-				r.Fail(name+".Verify:entry-disagrees-with-single-verification", "mode=%d opt=%d pk=%x sig=%x batch=%v single=%v all=%v cfgInvalid=%v", mode, c.N%12, a[0], a[2], valid[1], want, all, cfgInvalid)
+				r.Fail(name+".Verify:entry-disagrees-with-single-verification", "mode=%d opt=%d pk=%x sig=%x batch=%v single=%v all=%v cfgInvalid=%v", mode, c.N%76, a[0], a[2], valid[1], want, all, cfgInvalid)
 			}
 			bo := v.VerifyBatchOnly(&c19Entropy{b: []byte{1, 2, 3}})
 			cofactorless := opts.Verify != nil && opts.Verify.CofactorlessVerify
 			if bo != (want && !cofactorless) {
-				r.Fail(name+".VerifyBatchOnly:wrong", "mode=%d opt=%d got=%v want=%v", mode, c.N%12, bo, want && !cofactorless)
+				r.Fail(name+".VerifyBatchOnly:wrong", "mode=%d opt=%d got=%v want=%v", mode, c.N%76, bo, want && !cofactorless)
 			}
 			// nil options: documented panic
 			if p, _ := h.Catch(func() { ed25519.NewBatchVerifier().AddWithOptions(a[0], a[1], a[2], nil) }); !p {
@@ -626,7 +636,7 @@ func init() {
 			}
 		})
 	}}
-	R["cache.Verifier"] = c19Row{Nominal: [3]int{32, -2, 64}, NMax: 11, Valid: c19ValidEdSig, Run: func(c c19Case, a [3][]byte, r *h.R) {
+	R["cache.Verifier"] = c19Row{Nominal: [3]int{32, -2, 64}, NMax: 75, Valid: c19ValidEdSig, Run: func(c c19Case, a [3][]byte, r *h.R) {
 		name := "cache.Verifier"
 		opts, docPanic := c19Options(c.N, a[1])
 		if opts.Hash == crypto.SHA512 && len(a[1]) != 64 {
@@ -643,18 +653,18 @@ func init() {
 		p, v := h.Catch(func() { ok = cv.VerifyWithOptions(a[0], a[1], a[2], opts) })
 		// option panics are only reachable once the key has been accepted
 		if p != (docPanic && decodable) {
-			r.Fail(name+".VerifyWithOptions:panic-not-as-documented", "opt=%d decodable=%v panicked=%v (%v)", c.N%12, decodable, p, v)
+			r.Fail(name+".VerifyWithOptions:panic-not-as-documented", "opt=%d decodable=%v panicked=%v (%v)", c.N, decodable, p, v)
 			return
 		}
 		if !p && ok != plain {
-			r.Fail(name+".VerifyWithOptions:disagrees-with-plain", "pk=%x opt=%d cached=%v plain=%v", a[0], c.N%12, ok, plain)
+			r.Fail(name+".VerifyWithOptions:disagrees-with-plain", "pk=%x opt=%d cached=%v plain=%v", a[0], c.N, ok, plain)
 		}
 		c19NoPanic(r, name+".AddWithOptions", func() {
 			bv := ed25519.NewBatchVerifier()
 			cv.AddWithOptions(bv, a[0], a[1], a[2], opts)
 			all, valid := bv.Verify(&c19Entropy{b: []byte{4, 4, 4}})
 			if len(valid) != 1 || valid[0] != plain || all != plain {
-				r.Fail(name+".AddWithOptions:disagrees-with-plain", "pk=%x opt=%d batch=%v plain=%v", a[0], c.N%12, valid, plain)
+				r.Fail(name+".AddWithOptions:disagrees-with-plain", "pk=%x opt=%d batch=%v plain=%v", a[0], c.N, valid, plain)
 			}
 		})
 	}}
